@@ -200,6 +200,13 @@ Theorem C05_prepend_is_the_plain_move :
 Proof. exact prepend_plain. Qed.
 Print Assumptions C05_prepend_is_the_plain_move.
 
+(* any_append of an ordinary node is append *)
+Theorem C05_any_append_is_the_plain_move :
+  forall st P b, Good st -> (cons st = true -> noadj st) -> structure_check st (Some P) b = true ->
+    erase (store (fst (m_any_append st P b))) = content (cons st) (fmap_kids P (fun k => fapp k (tree_of st b)) (fdel b (store st))).
+Proof. exact any_append_plain. Qed.
+Print Assumptions C05_any_append_is_the_plain_move.
+
 (* detach and remove in the same reading, for a node of any kind that is there: the subtree becomes a tree of its own in front of
    the store (detach) or is gone (remove); where it stood, two text nodes that now touch read as one *)
 Theorem C05_detach_is_the_plain_cut :
